@@ -121,6 +121,9 @@ Record otrace := { ot_cls : cls; ot_events : list ev }.
 Record case := {
   c_a : tree; c_b : tree;
   c_crashed : bool;              (* the drive raised (the traces end where it did) *)
+  c_collapsed : bool;            (* some WeightedBipartiteMatcher of the run ended with fewer matched pairs than
+                                    min(#from_nodes, #to_nodes): repeated nodes collapsed in its node-keyed dictionary
+                                    (read off the implementation's objects by the harness; used by the D36 class only) *)
   c_objs : list otrace
 }.
 
@@ -139,10 +142,14 @@ Definition failing_classes (c : case) : list cls :=
    WeightedBipartiteMatcher keys its dictionaries by node, so repeated elements collapse; the MATCHER's own bounds
    then widen / lose their final value once the matching is computed (and repeat_until_tightened may spin for ever:
    those runs are cut by the wall-clock guard).  Class: the trace of some WeightedBipartiteMatcher object itself
-   violates a clause.  A case in which only other objects fail (e.g. a MultiSetEdit whose bounds do not contain its
+   violates a clause, or a collapsed matching was observed (c_collapsed).  A case in which only other objects fail (e.g. a MultiSetEdit whose bounds do not contain its
    final value while its matcher's trace is fine) is NOT in the class. *)
 Definition kf_matcher_fails (c : case) : bool :=
   existsb (fun o => cls_eqb (ot_cls o) CMatcher && negb (holds_events (ot_events o))) (c_objs c).
+(* ... or the collapse itself was observed: the matcher's pre-matching bracket can be memoised as a single value, so
+   its own trace stays clean while the MultiSetEdit above it counts the collapsed pairs as unmatched
+   (MultiSetNode{1,1,2} -> {3,3}: [4,4] -True-> [8,8]) *)
+Definition kf_multiset_duplicates_C04 (c : case) : bool := kf_matcher_fails c || c_collapsed c.
 
 (* ---------------------------------------------------------------- machines and their contract *)
 Definition zr := (Z * Z)%type.                        (* finite range (lower, upper) *)
